@@ -228,12 +228,17 @@ def oracleSolve (U : Universe) (P : Problem) (cfg : String) (r : ImplSolve) (pri
         -- position of the first poll that returned a value
         let firstFired := (r.calls.takeWhile (fun w => !w.startsWith "P")).length
         let observed := firstFired < r.calls.length
-        let afterObs := (r.calls.drop (firstFired + 1)).filter isCall
+        let firstSeen := (r.calls.takeWhile (fun w => !(w.startsWith "P" || w.startsWith "Q"))).length
+        -- (`Q`: a poll that returned the value to a SolverCache call made from inside the provider's own sort_candidates -
+        -- a look-ahead provider cannot hand it to the solver, so only `P` obliges solve to return Cancelled; but the
+        -- cache has observed it, and no request may be started afterwards)
+        let afterObs := (r.calls.drop (firstSeen + 1)).filter isCall
         let o1 := if observed && r.result != "cancelled" then
             [s!"oracle-fail C12 not-cancelled: should_cancel_with_value returned a value at a poll but solve returned `{r.result}`"] else []
+        -- (a look-ahead provider returns one constant value: that of the first poll that fired, `P` or `Q`)
         let o2 := if observed && r.result == "cancelled" &&
-                     r.resultArg != toString (7000 + nat! ((r.calls.getD firstFired "P0").drop 1).toString) then
-            [s!"oracle-fail C12 wrong-value: Cancelled carries {r.resultArg}, the provider returned {7000 + nat! ((r.calls.getD firstFired "P0").drop 1).toString}"] else []
+                     r.resultArg != toString (7000 + nat! ((r.calls.getD firstSeen "P0").drop 1).toString) then
+            [s!"oracle-fail C12 wrong-value: Cancelled carries {r.resultArg}, the provider returned {7000 + nat! ((r.calls.getD firstSeen "P0").drop 1).toString}"] else []
         let o3 := if !afterObs.isEmpty then
             [s!"oracle-fail C12 call-after-cancel: provider request {afterObs.headD ""} was started after cancellation had been observed"] else []
         -- call-indexed plans: the signal goes up while request number j is served
@@ -253,7 +258,10 @@ def oracleSolve (U : Universe) (P : Problem) (cfg : String) (r : ImplSolve) (pri
                 [s!"oracle-fail C12 request-after-signal: the cancellation signal went up during provider request number {jGlobal} but request {later.headD ""} was still started afterwards (no poll in between)"] else [])
             | none => []
           else []
-        o1 ++ o2 ++ o3 ++ o4
+        -- the cache was handed the value (by a poll of either kind) and the solve ends in a panic instead of `Cancelled`
+        let o5 := if firstSeen < r.calls.length && r.result == "panic" then
+            [s!"oracle-fail C12 panic-after-cancel: should_cancel_with_value returned a value at a poll and solve panicked: {r.resultArg}"] else []
+        o1 ++ o2 ++ o3 ++ o4 ++ o5
     ls ++ d ++ c ++ c12 ++ c11)
 
 def parseF32 (s : String) : Float32 :=
